@@ -775,11 +775,17 @@ def _scorer_state_per_object(ctx, rule):
     from . import c13
     return c13.r11_no_shared_class_state(ctx, rule)
 
+def _cp_count(ctx, rule):
+    # the guesser reads LN.level with the n-gram size the trainer used (seed C07-o: _load_length given a default min_size = 4 and no
+    # longer passed grammar['ngram'] - rulesets trained with another n-gram size get their lengths shifted)
+    from . import c11
+    return c11.r3_cp_count(ctx, rule)
+
 def rules(tier):
     return [('C07.R1', r1_separator_inclusion), ('C07.R2', lambda c, r: r2_encoding_agreement(c, r)),
             ('C07.R3', r3_record_layout), ('C07.R5', r5_strip_discipline), ('C07.R6', r6_wipe_before_write),
             ('C07.R7', r7_paths_written), ('C07.R8', c04.r5_grouping_kernel), ('C07.R9', lambda c, r: c03.r1_tag_chain(c, r, scope='disk')),
-            ('C07.R10', r10_loader_complete), ('C07.R11', _renorm), ('C07.R12', _not_aliased), ('C07.R13', r13_recorded_encoding_verbatim), ('C07.R14', _scorer_state_per_object)]
+            ('C07.R10', r10_loader_complete), ('C07.R11', _renorm), ('C07.R12', _not_aliased), ('C07.R13', r13_recorded_encoding_verbatim), ('C07.R14', _scorer_state_per_object), ('C07.R15', _cp_count)]
 
 
 META = {
